@@ -94,6 +94,40 @@ pub fn run(out: &mut Out, seed: u64, tier: &str) {
             out.case(&format!("history {} {} | {} | {}", kind, m.n(), tt, reqs.join(";")), &answers.join(";"));
         }
     }
+    // requests made through the molecule (Molecule::energy / gradient / numerical_gradient), at ordinary and at placeholder
+    // geometries (all atoms at the origin, as a molecule made from symbols alone; one repeated position; all on a line): a request
+    // leaves the coordinates it was given bit for bit as they were, and answers for them as a fresh object would
+    let mut n_via_mol = 0usize;
+    for m in library().iter().take(if tier == "thorough" { 12 } else { 5 }) {
+        if m.n() < 2 || m.n() > 10 { continue; }
+        let built = match catch(|| m.build()) { Some(x) => x, None => continue };
+        for (gname, xs) in [("as given", m.xs.clone()), ("all atoms at the origin", vec![[0.0; 3]; m.n()]),
+                            ("one repeated position", { let mut v = m.xs.clone(); v[1] = v[0]; v }), ("all on a line", (0..m.n()).map(|i| [1.1 * i as f64, 0.0, 0.0]).collect())] {
+            for kind in ["uff", "rb"] {
+                let mut used = match FF::build(kind, &built) { Some(f) => f, None => continue };
+                let mut mol = match catch(|| m.build()) { Some(x) => x, None => continue };
+                mol.coordinates = xs.iter().map(|p| Point { x: p[0], y: p[1], z: p[2] }).collect();
+                let snap: Vec<u64> = mol.coordinates.iter().flat_map(|p| [p.x.to_bits(), p.y.to_bits(), p.z.to_bits()]).collect();
+                let x_given = mol.coordinates.clone();
+                let replay = format!("{} force field of\n{}requests through the molecule with its coordinates set to: {}", kind, m.xyz_text(), gname);
+                let same_bits = |a: &[f64], b: &[f64]| a.len() == b.len() && a.iter().zip(b.iter()).all(|(p, q)| p.to_bits() == q.to_bits() || (p.is_nan() && q.is_nan()));
+                for what in ["energy", "gradient", "energy", "numerical_gradient", "gradient"] {
+                    let mut fresh = match FF::build(kind, &built) { Some(f) => f, None => break };
+                    let ok = match what {
+                        "energy" => catch(|| mol.energy(used.as_dyn())).map(|e| same_bits(&[e], &[fresh.energy(&x_given)])),
+                        "gradient" => catch(|| flat(&mol.gradient(used.as_dyn()))).map(|g| same_bits(&g, &fresh.gradient(&x_given))),
+                        _ => catch(|| { let _ = mol.numerical_gradient(used.as_dyn()); }).map(|_| true),
+                    };
+                    let after: Vec<u64> = mol.coordinates.iter().flat_map(|p| [p.x.to_bits(), p.y.to_bits(), p.z.to_bits()]).collect();
+                    if after != snap { out.oracle_fail(&format!("a {} request through the molecule changed the molecule's coordinates", what), &replay); break; }
+                    match ok { Some(false) => { out.oracle_fail(&format!("a {} request through the molecule was not answered for the coordinates the molecule holds (a fresh object answers differently)", what), &replay); break; }
+                               _ => {} }
+                    n_via_mol += 1;
+                }
+            }
+        }
+    }
+    out.stat("requests_through_the_molecule", n_via_mol);
     // large systems (a code path chosen by size is chosen here): boxes of 64-216 waters (192-648 atoms, up to ~200 000 terms), a
     // short history G(A) G(A) E(A) G(B) E(B) G(A) on one object, every answer against a fresh object's. Too large for the model
     // line: the fresh-object oracle only.
